@@ -42,7 +42,8 @@ def tlc_sets(tier):
 def bound(tier):
     q = tier == "quick"
     return dict(starting_epoch=[0, 2 if q else 3], epochs=[0, 2 if q else 3], N=[1, 3], pos_batch_size=[1, 2, 4], neg_batch_size="default; {1,2,3} != pos for N=3",
-                callback_lists=["[R]", "[R,S]", "[S,R]", "[R1,S,R2]", "[Lambda-recorder,S]"], timer=[False, True],
+                callback_lists=["[R]", "[R,S]", "[S,R]", "[R1,S,R2]", "[Lambda-recorder,S]", "[derived recorder, derived injector]"], timer=[False, True],
+                options=["scheduler=StepLR", "optimizer=Adam + optimizer_args", "k=3", "progbar + ignored keyword", "callbacks as a tuple"], second_fit="after stop / reset on the same objects (RS list and option variants)",
                 stop="none; pre-set; one request at every event of the run (every callback position)", kinds="positive full grid; complex/mixed N<=2",
                 tlc_constant_sets=[list(c) for c in tlc_sets(tier)], tlc_invariants=INVARIANTS)
 
@@ -64,6 +65,10 @@ def plan(tier, seed):
                                 cfgs.append(dict(kind=kind, e0=e0, E=E, N=N, pb=pb, cbl=cbl, timer=timer))
                                 if cbl == "RS" and not timer and N == 2 and kind == "positive":
                                     cfgs.append(dict(kind=kind, e0=e0, E=E, N=N, pb=pb, cbl=cbl, timer=timer, extras=True))
+                                if cbl == "SR" and not timer and N == 2 and pb == 2:
+                                    # the callbacks given in another iterable form than a list
+                                    for cbform in ("tuple",):
+                                        cfgs.append(dict(kind=kind, e0=e0, E=E, N=N, pb=pb, cbl=cbl, timer=timer, cbform=cbform))
                                 if cbl == "SR" and not timer and N == 2 and pb == 1:
                                     for opt in ("sched", "adam", "k3"):
                                         cfgs.append(dict(kind=kind, e0=e0, E=E, N=N, pb=pb, cbl=cbl, timer=timer, opt=opt))
@@ -198,7 +203,10 @@ def run_fit(cfg, tape, pre=False):
                 kw.update(dict(sched=dict(scheduler=torch.optim.lr_scheduler.StepLR, scheduler_args=dict(step_size=1, gamma=0.5)),
                                adam=dict(optimizer=torch.optim.Adam, optimizer_args=dict(betas=(0.8, 0.9)), lr=0.01),
                                k3=dict(k=3, lr=0.02))[cfg["opt"]])
-            call(st.fit, data, epochs=E, starting_epoch=e0, pos_batch_size=pb, time=cfg.get("timer", False), callbacks=cbs, **kw)
+            # (the documented type is a list; a tuple is the only other form used here - one-shot iterables work with the
+            # present code by accident of `list(callbacks)` and are not demanded)
+            cbarg = {None: cbs, "tuple": tuple(cbs)}[cfg.get("cbform")]
+            call(st.fit, data, epochs=E, starting_epoch=e0, pos_batch_size=pb, time=cfg.get("timer", False), callbacks=cbarg, **kw)
     except LibRaised as e:
         return [(f"protocol:fit-raised:{e.kind}", dict(tb=e.tb))], None, 0
     nb = math.ceil(N / pb)
@@ -233,7 +241,7 @@ def run_fit(cfg, tape, pre=False):
             out.append(("protocol:stop-request-did-not-persist", dict(flag=st.stop_training)))
         if pre and (glog or params_hash(st) != h0 or env.calls):
             out.append(("protocol:pre-stopped-run-did-something", dict(events=len(glog), random_calls=env.calls[:3])))
-    if not out and cfg["cbl"] == "RS" and not cfg.get("timer"):
+    if not out and (cfg["cbl"] == "RS" or cfg.get("opt")) and not cfg.get("timer"):
         # non-initial state: call fit again on the same objects.  A still-set request must make it a
         # no-op; after the user resets the flag the full protocol must run again.
         n0 = len(glog)
@@ -252,6 +260,16 @@ def run_fit(cfg, tape, pre=False):
                 again = [(e, s_) for (c, e, s_, h) in glog[n0:] if c == 0]
                 if again != P.run(e0, E, nb, None, False):
                     out.append(("protocol:fit-after-reset-does-not-follow-the-protocol", dict(observed=again[:4], expected=P.run(e0, E, nb, None, False)[:4])))
+                # in the continued run, too, parameters change only between a batch-start and its batch-end - in
+                # particular not between the call and train-start (the model now carries gradients of the first run)
+                prev_h, prev_e = h1, None
+                for (c_, e_, s_, h_) in glog[n0:]:
+                    if h_ != prev_h and not (e_[0] == "batch_end" and prev_e is not None and prev_e[0] == "batch_start" and e_[1:] == prev_e[1:]):
+                        out.append(("protocol:parameters-changed-outside-a-batch:second-fit", dict(at=e_, before=prev_e)))
+                        break
+                    prev_h, prev_e = h_, e_
+                if not glog[n0:] and params_hash(st) != h1:
+                    out.append(("protocol:parameters-changed-outside-a-batch:second-fit", dict(at="empty run", before=None)))
         except LibRaised as e:
             out.append((f"protocol:second-fit-raised:{e.kind}", dict(tb=e.tb)))
     trace_after = None
@@ -354,7 +372,7 @@ def replay(case):
         cfg = dict(kind="positive", e0=e0, E=E, N=nb, pb=1, cbl="SR", timer=False)
         pre = len(case.get("trace", [1])) == 0
     else:
-        cfg = {k: case[k] for k in ("kind", "e0", "E", "N", "pb", "cbl", "timer", "negb", "extras", "opt") if k in case}
+        cfg = {k: case[k] for k in ("kind", "e0", "E", "N", "pb", "cbl", "timer", "negb", "extras", "opt", "cbform") if k in case}
         pre = case.get("pre", False)
     viols, tr, nev = run_fit(cfg, T.Tape(case["tape"], lenient=True), pre)
     acc.ev(1)
